@@ -190,6 +190,13 @@ def generate(rng):
     faults = {"sched": sample_sched(rng, decorated=True), "opt": weighted(rng, [("real", 4), ("identity", 1)])}
     # the decorated object lives through a history: earlier / interrupted / rejected fits, parameter changes, other data
     ops = [{"op": "decorate"}] + sample_prefix(rng, cfg, p_any=0.5, allow_path=True) + [{"op": "fit", "data": 0}]
+    if FAMILIES[cfg["family"]]["batched"] and cfg["n"] >= 3 and rng.random() < 0.08:
+        # a hyper-parameter the decoration could have snapshotted: decorated as a full-batch model, trained with mini-batches
+        # (and the other way round)
+        small = rng.randint(1, cfg["n"] - 1)
+        first, then = (None, small) if rng.random() < 0.6 else (small, None)
+        cfg["params"]["batch_size"] = first
+        ops.insert(1, {"op": "set_params", "change": ["batch_size", then]})
     if rng.random() < 0.2:
         ops.append({"op": "fit", "data": rng.randrange(2)})
     return {"property": PROPERTY, "scenario": "mlcl", "config": cfg, "ops": ops, "faults": faults}
